@@ -359,7 +359,13 @@ def decide(v, prop, tier, opts):
         if n_allowed:
             row["accepted_clean_panics"] = n_allowed
     # native replay of everything not explained by the known-findings file
+    replay_cap = opts.get("replay_cap", 3)
     for r, unknown in need_replay:
+        if len(v.violations) >= replay_cap:
+            # enough reproduced violations to fail the check; the remaining failing harnesses are listed, not replayed
+            log(f"UNREPLAYED-FAILURE property={prop} harness={r.name} failed checks={[u[0] for u in unknown][:3]} "
+                f"(decided by CBMC; native replay skipped after {replay_cap} reproduced violations; log {r.log})")
+            continue
         path, tests = playback(prop, tier, r.name, timeout_s, mem_gb)
         if path is None:
             ub = [u for u in unknown if UB_PAT.search(u[0])]
